@@ -2087,6 +2087,13 @@ impl Connection {
         );
 
         self.process_decrypted_packet(now, remote, Some(packet_number), packet.into())?;
+        if self.state.is_closed() {
+            // The first Initial to arrive carried a CONNECTION_CLOSE (e.g. the client gave up and
+            // its earlier datagrams were lost): do what `handle_packet` does when a packet closes
+            // the connection, so that it drains after three PTOs rather than by idle timeout.
+            self.close_common();
+            self.set_close_timer(now);
+        }
         if let Some(data) = remaining {
             self.handle_coalesced(now, remote, ecn, data);
         }
